@@ -649,7 +649,7 @@ def check(tier):
     n = 12000 if tier == "quick" else 10 ** 9
     batch = 12000
     start, viol = 0, []
-    while start < n and time.time() < deadline - (15 if tier == "quick" else 120):
+    while start < n and time.time() < deadline - (15 if tier == "quick" else min(120, budget * 0.2)):
         results = core.run_batch(one_run, PROP, seed, range(start, min(n, start + batch)), cfg, deadline=deadline)
         for i, r in results:
             if "harness_error" in r:
